@@ -57,12 +57,15 @@ def install() -> bool:
         evs = _state["events"]
         if evs is None:
             return
-        ev["t"] = threading.get_ident()
-        # set / inject are not critical sections: with several threads their snapshot could show the middle of
-        # another thread's critical section, so none is taken (the trace specification then follows the model)
-        ev["snap"] = not (_state["multi"] and ev["op"] in ("set", "inject"))
-        ev["post"] = _snapshot(pp)
-        evs.append(ev)
+        try:
+            ev["t"] = threading.get_ident()
+            # set / inject are not critical sections: with several threads their snapshot could show the middle of
+            # another thread's critical section, so none is taken (the trace specification then follows the model)
+            ev["snap"] = not (_state["multi"] and ev["op"] in ("set", "inject"))
+            ev["post"] = _snapshot(pp)
+            evs.append(ev)
+        except Exception:  # noqa: BLE001 - the recorder must never disturb the render: the trace is dropped
+            _state["broken"] = True
 
     def nested() -> bool:
         return getattr(_tls, "depth", 0) > 0
@@ -75,29 +78,53 @@ def install() -> bool:
         finally:
             _tls.depth -= 1
 
-    def register(context, reference_id):
+    @contextmanager
+    def section():
+        """The library's own lock, if it is (still) a re-entrant one."""
+        lk = getattr(pp, "_provide_lock", None)
+        if lk is not None and type(lk).__name__ in ("RLock", "_RLock", "CoopRLock") and hasattr(lk, "__enter__"):
+            with lk:
+                yield
+        else:
+            yield
+
+    def arg(a, kw, i, name, default=""):
+        try:
+            return a[i] if len(a) > i else kw.get(name, default)
+        except Exception:  # noqa: BLE001
+            return default
+
+    def visible(context) -> List[str]:
+        try:
+            return sorted({v for k, v in context.flatten().items() if isinstance(k, str) and k.startswith(PREFIX)
+                           and isinstance(v, str)})
+        except Exception:  # noqa: BLE001
+            _state["broken"] = True
+            return []
+
+    # (wrappers pass their arguments through untouched: a changed signature must not fail in the recorder)
+    def register(*a, **kw):
         if _state["events"] is None or nested():
-            return o_reg(context, reference_id)
-        with pp._provide_lock:
-            ps = sorted({v for k, v in context.flatten().items() if isinstance(k, str) and k.startswith(PREFIX)})
-            ev = {"op": "reg", "id": reference_id, "ps": ps, "raised": ""}
+            return o_reg(*a, **kw)
+        with section():
+            ev = {"op": "reg", "id": str(arg(a, kw, 1, "reference_id")), "ps": visible(arg(a, kw, 0, "context", None)), "raised": ""}
             try:
                 with frame():
-                    return o_reg(context, reference_id)
+                    return o_reg(*a, **kw)
             except BaseException as e:  # noqa: BLE001
                 ev["raised"] = type(e).__name__
                 raise
             finally:
                 log(ev)
 
-    def unregister(reference_id):
+    def unregister(*a, **kw):
         if _state["events"] is None or nested():
-            return o_unreg(reference_id)
-        with pp._provide_lock:
-            ev = {"op": "unreg", "id": reference_id, "ps": [], "raised": ""}
+            return o_unreg(*a, **kw)
+        with section():
+            ev = {"op": "unreg", "id": str(arg(a, kw, 0, "reference_id")), "ps": [], "raised": ""}
             try:
                 with frame():
-                    return o_unreg(reference_id)
+                    return o_unreg(*a, **kw)
             except BaseException as e:  # noqa: BLE001
                 ev["raised"] = type(e).__name__
                 raise
@@ -105,13 +132,14 @@ def install() -> bool:
                 log(ev)
 
     @contextmanager
-    def managed(provide_id):
+    def managed(*a, **kw):
         if _state["events"] is None:
-            with o_mpc(provide_id):
+            with o_mpc(*a, **kw):
                 yield
             return
-        cm = o_mpc(provide_id)
-        with pp._provide_lock:
+        provide_id = str(arg(a, kw, 0, "provide_id"))
+        cm = o_mpc(*a, **kw)
+        with section():
             ev = {"op": "enter", "id": provide_id, "ps": [], "raised": ""}
             try:
                 with frame():
@@ -124,7 +152,7 @@ def install() -> bool:
         try:
             yield
         except BaseException as body_exc:  # noqa: BLE001
-            with pp._provide_lock:
+            with section():
                 ev = {"op": "exit", "id": provide_id, "ps": [], "raised": "", "body_failed": True}
                 try:
                     with frame():
@@ -138,7 +166,7 @@ def install() -> bool:
             if not swallowed:
                 raise
         else:
-            with pp._provide_lock:
+            with section():
                 ev = {"op": "exit", "id": provide_id, "ps": [], "raised": "", "body_failed": False}
                 try:
                     with frame():
@@ -151,13 +179,13 @@ def install() -> bool:
 
     # set_provided_context_var / get_injected_context_var are not critical sections of the library (one dict
     # write / read): the wrappers do not take the lock either, the event is logged right after the access
-    def set_provided(context, key, provided_kwargs):
+    def set_provided(*a, **kw):
         if _state["events"] is None:
-            return o_set(context, key, provided_kwargs)
+            return o_set(*a, **kw)
         ev = {"op": "set", "id": "", "ps": [], "raised": ""}
         try:
-            pid = o_set(context, key, provided_kwargs)
-            ev["id"] = pid
+            pid = o_set(*a, **kw)
+            ev["id"] = pid if isinstance(pid, str) else ""
             return pid
         except BaseException as e:  # noqa: BLE001
             ev["raised"] = type(e).__name__
@@ -166,15 +194,20 @@ def install() -> bool:
             if ev["id"] or ev["raised"]:
                 log(ev)
 
-    def get_injected(component_name, context, key, default=None):
+    def get_injected(*a, **kw):
         if _state["events"] is None:
-            return o_get(component_name, context, key, default)
-        p = context.get(PREFIX + key) if isinstance(key, str) else None
-        if p is None:
-            return o_get(component_name, context, key, default)     # no provider visible: nothing to bind
+            return o_get(*a, **kw)
+        p = None
+        try:
+            context, key = arg(a, kw, 1, "context", None), arg(a, kw, 2, "key", None)
+            p = context.get(PREFIX + key) if isinstance(key, str) and context is not None else None
+        except Exception:  # noqa: BLE001
+            p = None
+        if not isinstance(p, str):
+            return o_get(*a, **kw)     # no provider visible: nothing to bind
         ev = {"op": "inject", "id": p, "ps": [], "raised": "", "found": True}
         try:
-            return o_get(component_name, context, key, default)
+            return o_get(*a, **kw)
         except BaseException as e:  # noqa: BLE001
             ev["found"] = False
             ev["raised"] = type(e).__name__
@@ -202,6 +235,7 @@ def start(multi: bool = False) -> bool:
     if not install():
         return False
     _state["multi"] = multi
+    _state["broken"] = False
     _state["events"] = []
     return True
 
@@ -220,8 +254,9 @@ def mark_end(failed: bool) -> None:
 
 
 def stop() -> Optional[List[Dict[str, Any]]]:
+    """The recorded events; None if the recorder could not observe the library faithfully (trace not bound)."""
     evs, _state["events"] = _state["events"], None
-    return evs
+    return None if _state.get("broken") else evs
 
 
 # ---- projection for TLC ---------------------------------------------------------------------------
@@ -232,7 +267,7 @@ def project(events: List[Dict[str, Any]], pre: Optional[Dict[str, Any]] = None) 
     """Rename ids (providers p1.., other referrers r1.. in order of first appearance) and flatten the
     state for Trace_ProvideRefs.  `pre`: registry state when recording started (must be empty for the
     trace to be bound; otherwise None is returned and the caller counts it)."""
-    if pre and (pre["cache"] or pre["refs"] or pre["all"]):
+    if events is None or (pre and (pre["cache"] or pre["refs"] or pre["all"])):
         return None
     pids: Dict[str, str] = {}
     rids: Dict[str, str] = {}
